@@ -15,6 +15,10 @@ def exe(name):
     return os.path.join(LEAN, ".lake", "build", "bin", name)
 
 
+# properties decided on the runtime / tools alone: no generated event table or handler fact enters their model
+RUNTIME_ONLY = {"C01", "C02", "C03", "C09", "C10", "C11", "C15", "C16"}
+
+
 class Prepared:
     def __init__(self):
         self.bdir = None
@@ -42,9 +46,14 @@ def prepare(res, need_driver=True, asan=False, drivers=("ovnimodel",)):
     try:
         changed = gen.generate(p.bdir)
         res.cov["generated_changed"] = [k for k, v in changed.items() if v]
-        bad = gen.translator_selfcheck(p.bdir)
-        for b in bad:
-            p.problems.append("translator-selfcheck: " + b)
+        # the translator's own consistency matters to the checks whose model consumes the generated
+        # tables / handler facts; the consistency of the code under test (listed vs recognised events)
+        # is C18's subject only.  Runtime-side properties do not depend on either.
+        pid = getattr(res, "pid", "")
+        if pid not in RUNTIME_ONLY:
+            bad = gen.translator_selfcheck(p.bdir, consistency=(pid == "C18"))
+            for b in bad:
+                p.problems.append("translator-selfcheck: " + b)
     except BuildError as e:
         p.problems.append("translator: " + str(e)[-1500:])
     if need_driver:
